@@ -254,6 +254,7 @@ type fontRec struct {
 	Map     []int            `json:"map"`
 	Ng      int              `json:"ng"`
 	W1      int              `json:"w1"`
+	Csok    int              `json:"csok"` // CFF programs: the Top DICT CharStrings offset points at a well-formed INDEX (1), not (0), n/a (-1)
 	emb     *font.SFNT
 	bad     bool
 	badText string
@@ -268,6 +269,7 @@ type spanRec struct {
 }
 type docRec struct {
 	Kind       string    `json:"kind"` // "ttf" | "cff"
+	Why        string    `json:"why"`  // why a font object could not be decoded (diagnostic only)
 	Font       int       `json:"font"`
 	Subset     bool      `json:"subset"`
 	Reuse      int       `json:"reuse"`
@@ -658,7 +660,7 @@ func rewrapSFNT(emb, src []byte) []byte {
 }
 
 func decodeFont(f *oracle.PDFFile, o *oracle.PDFObject, pristine []byte) fontRec {
-	fr := fontRec{Enc: nameOf(o.Dict.Get("Encoding")), Dw: 1000, W1: -1000, W: []oracle.WEntry{}, Tuc: []oracle.TUChar{}, Tur: []oracle.TURange{}, Map: []int{}, Ng: -1}
+	fr := fontRec{Csok: -1, Enc: nameOf(o.Dict.Get("Encoding")), Dw: 1000, W1: -1000, W: []oracle.WEntry{}, Tuc: []oracle.TUChar{}, Tur: []oracle.TURange{}, Map: []int{}, Ng: -1}
 	var desc *oracle.PDFDict
 	if arr, _, ok := f.Resolve(o.Dict.Get("DescendantFonts")); ok {
 		if a, isArr := arr.(oracle.PDFArray); isArr && len(a) == 1 {
@@ -701,10 +703,11 @@ func decodeFont(f *oracle.PDFFile, o *oracle.PDFObject, pristine []byte) fontRec
 	if fd := f.ResolveDict(desc.Get("FontDescriptor")); fd != nil {
 		for _, k := range []string{"FontFile2", "FontFile3"} {
 			if _, ff, ok := f.Resolve(fd.Get(k)); ok && ff != nil && ff.IsStream && ff.Decode == "ok" {
+				fr.Csok = oracle.CFFCharStringsIndexOK(ff.Decoded)
 				func() {
 					defer func() {
-						if recover() != nil {
-							fr.bad = true
+						if r := recover(); r != nil {
+							fr.badText = fmt.Sprint("embedded program: panic in the parser: ", r)
 						}
 					}()
 					emb, err := font.ParseEmbeddedSFNT(ff.Decoded, 0)
@@ -715,17 +718,14 @@ func decodeFont(f *oracle.PDFFile, o *oracle.PDFObject, pristine []byte) fontRec
 						emb, err = font.ParseSFNT(rewrapSFNT(ff.Decoded, pristine), 0)
 					}
 					if err != nil {
-						fr.bad = true
-						fr.badText = err.Error()
+						// the program is reported as unreadable through Ng = -1 (and Csok), not through fr.bad
+						fr.badText = "embedded program: " + err.Error()
 						return
 					}
 					fr.emb, fr.Ng = emb, int(emb.NumGlyphs())
 				}()
 			}
 		}
-	}
-	if fr.emb == nil {
-		fr.bad = true
 	}
 	return fr
 }
@@ -775,6 +775,9 @@ func decode(id int, s *Scenario, r *rendered) (trace []byte, nEvents int, ms []c
 						if _, obj, ok := f.Resolve(fo); ok && obj != nil && obj.Dict != nil && nameOf(obj.Dict.Get("Subtype")) == "Type0" {
 							if _, have := fontIdx[obj.Num]; !have {
 								fr := decodeFont(f, obj, rf.data)
+								if fr.badText != "" {
+									dr.Why += fr.badText + "; "
+								}
 								if fr.bad {
 									dr.Unreadable++
 								}
@@ -908,6 +911,16 @@ func toMismatches(s *Scenario, fails map[string]int, trace []byte) []core.Mismat
 	var ms []core.Mismatch
 	for _, sig := range sigs {
 		det := fmt.Sprintf("%s; %s", sig, describe(s))
+		if strings.HasPrefix(sig, "embedded-") || sig == "font-unreadable" {
+			var first struct {
+				D struct {
+					Why string `json:"why"`
+				} `json:"d"`
+			}
+			if doc := bytes.SplitN(trace, []byte("\n"), 2); len(doc) > 0 && json.Unmarshal(doc[0], &first) == nil {
+				det += "; the trusted parser says: " + first.D.Why
+			}
+		}
 		if k := fails[sig]; k > 0 {
 			// the k-th GET event of this document
 			n := 0
